@@ -1,0 +1,239 @@
+//! Instrumentation used by external runtime monitors. Only compiled with
+//! the `verif` feature; nothing here is reachable in a normal build.
+
+use crate::byte_code::ByteCode;
+use laythe_core::{object::FunBuilder, value::Value};
+use std::cell::RefCell;
+use std::io::Write;
+use std::sync::atomic::{AtomicBool, AtomicU64, Ordering::Relaxed};
+
+pub use crate::byte_code::{CaptureIndex, Label, SymbolicByteCode};
+
+/// Run the peephole optimiser on a symbolic stream
+pub fn peephole(
+  instructions: Vec<SymbolicByteCode>,
+  lines: Vec<u16>,
+) -> (Vec<SymbolicByteCode>, Vec<u16>) {
+  crate::compiler::verif_peephole_optimize(instructions, lines)
+}
+
+/// When set every inline cache lookup misses
+pub static CACHE_OFF: AtomicBool = AtomicBool::new(false);
+pub static PROPERTY_HITS: AtomicU64 = AtomicU64::new(0);
+pub static PROPERTY_MISSES: AtomicU64 = AtomicU64::new(0);
+pub static PROPERTY_FILLS: AtomicU64 = AtomicU64::new(0);
+pub static PROPERTY_CLEARS: AtomicU64 = AtomicU64::new(0);
+pub static INVOKE_HITS: AtomicU64 = AtomicU64::new(0);
+pub static INVOKE_MISSES: AtomicU64 = AtomicU64::new(0);
+pub static INVOKE_FILLS: AtomicU64 = AtomicU64::new(0);
+pub static INVOKE_CLEARS: AtomicU64 = AtomicU64::new(0);
+
+/// Instructions executed so far and the budget (0 = unlimited)
+pub static STEPS: AtomicU64 = AtomicU64::new(0);
+pub static STEP_BUDGET: AtomicU64 = AtomicU64::new(0);
+
+/// Check the stack contract before every instruction
+pub static STACK_MONITOR: AtomicBool = AtomicBool::new(false);
+pub static STACK_CHECKS: AtomicU64 = AtomicU64::new(0);
+pub static HANDLER_PUSHES: AtomicU64 = AtomicU64::new(0);
+pub static HANDLER_ENTRIES: AtomicU64 = AtomicU64::new(0);
+pub static MAX_DEPTH_SEEN: AtomicU64 = AtomicU64::new(0);
+
+/// Scheduler counters
+pub static CONTEXT_SWITCHES: AtomicU64 = AtomicU64::new(0);
+pub static FIBERS_QUEUED: AtomicU64 = AtomicU64::new(0);
+pub static DEADLOCKS: AtomicU64 = AtomicU64::new(0);
+pub static SCHED_TRACE: AtomicBool = AtomicBool::new(false);
+
+thread_local! {
+  static OPCOUNT: RefCell<[u64; 256]> = const { RefCell::new([0; 256]) };
+  static VIOLATIONS: RefCell<Vec<String>> = const { RefCell::new(Vec::new()) };
+  static DUMP: RefCell<Option<Box<dyn Write>>> = const { RefCell::new(None) };
+  static SCHED: RefCell<Vec<String>> = const { RefCell::new(Vec::new()) };
+  static IDS: RefCell<Vec<usize>> = const { RefCell::new(Vec::new()) };
+}
+
+pub fn violation(message: String) {
+  VIOLATIONS.with(|v| {
+    let mut v = v.borrow_mut();
+    if v.len() < 64 {
+      v.push(message)
+    }
+  });
+}
+
+pub fn take_violations() -> Vec<String> {
+  VIOLATIONS.with(|v| std::mem::take(&mut *v.borrow_mut()))
+}
+
+pub fn count_op(byte: u8) {
+  OPCOUNT.with(|o| o.borrow_mut()[byte as usize] += 1);
+}
+
+/// The name and execution count of every opcode
+pub fn op_counts() -> Vec<(String, u64)> {
+  OPCOUNT.with(|o| {
+    let o = o.borrow();
+    (0..ByteCode::VARIANT_COUNT)
+      .map(|b| (format!("{:?}", unsafe { ByteCode::from_byte_unchecked(b as u8) }), o[b]))
+      .collect()
+  })
+}
+
+pub fn sched_event(event: String) {
+  if SCHED_TRACE.load(Relaxed) {
+    SCHED.with(|s| {
+      let mut s = s.borrow_mut();
+      if s.len() < 20_000 {
+        s.push(event)
+      }
+    });
+  }
+}
+
+/// Map an address to a small stable number (order of first appearance)
+pub fn small_id(address: usize) -> usize {
+  IDS.with(|ids| {
+    let mut ids = ids.borrow_mut();
+    match ids.iter().position(|a| *a == address) {
+      Some(index) => index,
+      None => {
+        ids.push(address);
+        ids.len() - 1
+      },
+    }
+  })
+}
+
+pub fn take_sched_trace() -> Vec<String> {
+  SCHED.with(|s| std::mem::take(&mut *s.borrow_mut()))
+}
+
+/// Send a record of every compiled function to this sink
+pub fn set_dump_sink(sink: Option<Box<dyn Write>>) {
+  DUMP.with(|d| *d.borrow_mut() = sink);
+}
+
+pub fn dump_enabled() -> bool {
+  DUMP.with(|d| d.borrow().is_some())
+}
+
+fn emit(line: String) {
+  DUMP.with(|d| {
+    if let Some(sink) = d.borrow_mut().as_mut() {
+      let _ = sink.write_all(line.as_bytes());
+      let _ = sink.write_all(b"\n");
+      let _ = sink.flush();
+    }
+  });
+}
+
+fn json_str(s: &str) -> String {
+  let mut out = String::with_capacity(s.len() + 2);
+  out.push('"');
+  for c in s.chars() {
+    match c {
+      '"' => out.push_str("\\\""),
+      '\\' => out.push_str("\\\\"),
+      '\n' => out.push_str("\\n"),
+      '\r' => out.push_str("\\r"),
+      '\t' => out.push_str("\\t"),
+      c if (c as u32) < 0x20 => out.push_str(&format!("\\u{:04x}", c as u32)),
+      c => out.push(c),
+    }
+  }
+  out.push('"');
+  out
+}
+
+fn json_list<T, F: Fn(&T) -> String>(items: &[T], f: F) -> String {
+  let mut out = String::from("[");
+  for (i, item) in items.iter().enumerate() {
+    if i > 0 {
+      out.push(',');
+    }
+    out.push_str(&f(item));
+  }
+  out.push(']');
+  out
+}
+
+fn constant_tag(value: &Value) -> String {
+  use laythe_core::object::ObjectKind;
+
+  if value.is_num() {
+    return format!("num:{}", value.to_num());
+  }
+  if !value.is_obj() {
+    return "other".to_string();
+  }
+
+  let obj = value.to_obj();
+  match obj.kind() {
+    ObjectKind::String => format!("str:{}", &*obj.to_str()),
+    ObjectKind::Fun => {
+      let fun = obj.to_fun();
+      format!(
+        "fun:{}:{}:{}",
+        fun.capture_count(),
+        fun.parameter_count(),
+        &*fun.name()
+      )
+    },
+    ObjectKind::List => format!("list:{}", obj.to_list().len()),
+    kind => format!("{:?}", kind),
+  }
+}
+
+/// Record one compiled function
+#[allow(clippy::too_many_arguments)]
+pub fn dump_fun(
+  fun_builder: &FunBuilder,
+  pre: &[SymbolicByteCode],
+  pre_lines: &[u16],
+  post: &[SymbolicByteCode],
+  post_lines: &[u16],
+  code: &[u8],
+  lines: &[u16],
+  constants: &[Value],
+  label_offsets: &[usize],
+) {
+  let sym = |i: &SymbolicByteCode| json_str(&format!("{:?}", i));
+  emit(format!(
+    "{{\"t\":\"fun\",\"name\":{},\"module\":{},\"arity\":{},\"params\":{},\"max_slots\":{},\"captures\":{},\"pre\":{},\"pre_lines\":{},\"post\":{},\"post_lines\":{},\"code\":{},\"lines\":{},\"consts\":{},\"label_offsets\":{}}}",
+    json_str(fun_builder.name()),
+    fun_builder.verif_module_id(),
+    json_str(&format!("{:?}", fun_builder.verif_arity())),
+    fun_builder.parameter_count(),
+    fun_builder.verif_max_slots(),
+    fun_builder.capture_count(),
+    json_list(pre, sym),
+    json_list(pre_lines, |l| l.to_string()),
+    json_list(post, sym),
+    json_list(post_lines, |l| l.to_string()),
+    json_list(code, |b| b.to_string()),
+    json_list(lines, |l| l.to_string()),
+    json_list(constants, |c| json_str(&constant_tag(c))),
+    json_list(label_offsets, |o| o.to_string()),
+  ));
+}
+
+/// Record that a compilation unit was accepted and the cache it will run with
+pub fn dump_module(id: usize, path: &str, repl: bool, property_slots: usize, invoke_slots: usize) {
+  if !dump_enabled() {
+    return;
+  }
+
+  emit(format!(
+    "{{\"t\":\"module\",\"id\":{},\"path\":{},\"repl\":{},\"property_slots\":{},\"invoke_slots\":{},\"ops\":{}}}",
+    id,
+    json_str(path),
+    repl,
+    property_slots,
+    invoke_slots,
+    json_list(
+      &(0..ByteCode::VARIANT_COUNT).collect::<Vec<usize>>(),
+      |b| json_str(&format!("{:?}", unsafe { ByteCode::from_byte_unchecked(*b as u8) }))
+    ),
+  ));
+}
